@@ -187,7 +187,6 @@ R2.update({
  "C04-9": ("/tmp/seeds7/D/1", "C04", "entity modification time within the FIRST second of the epoch (seconds == 0): whole seconds held in Option<NonZeroU64>, date conditions skipped although Last-Modified is sent (200 instead of 304)", ["C14"]),
  "C14-7": ("/tmp/seeds7/D/2", "C14", "two requests on one thread less than 1 s apart that straddle a second boundary, the second entity's mtime in the future or 'just now': Date taken from a per-thread cache refreshed by age, Last-Modified clamped against the real clock, Last-Modified > Date", []),
  "C14-8": ("/tmp/seeds7/D/3", "C14", "entity whose ETag is the EMPTY tag (\"\" or W/\"\") echoed in If-None-Match / If-Match, or an empty tag as the last list element: bounds check assumes a tag has >= 3 bytes, list treated as corrupt (200 instead of 304, 400 for If-Match)", ["C04"]),
- "C07-5": ("/tmp/seeds7/E/1", "C07", "entity of length 0 (200 with Content-Length 0): fast path returns an empty body without asking the entity for a stream, so a stream that errors at once / delivers an extra byte / an extra chunk is never noticed", ["C01", "C02"]),
  "C20-7": ("/tmp/seeds7/E/2", "C20", "abort on a GZIP (or raw, with buffered bytes) writer while the consumer is polled between abort's two steps (error published, then encoder/writer dropped): reader leaves a finished Ok state instead of ReaderFused, the drop queues bytes behind the delivered error", ["C11", "C10"]),
  "C20-8": ("/tmp/seeds7/E/3", "C20", "two cooperating edits: abort only forwards the error (writer stays usable) + the reader's Err arm leaves a finished Ok state; sequence abort, poll (Err), NO further poll, then drop(writer) or write+flush, then poll: data after the error, then a clean end", ["C11"]),
  "C08-6": ("/tmp/seeds7/F/1", "C08", ">= 130 chunks queued before the consumer polls, writer then dropped or idle: 'cooperative yield' after 128 back-to-back chunks returns Pending without waking itself", ["C10"]),
@@ -271,6 +270,39 @@ R2.update({
  "C18-13": ("/tmp/seeds9/J/1", "C18", "ONE instance reused: drain a whole-file stream of a file <= 65536 bytes, truncate the file, get_range again on the same instance: small-file cache answers from memory, clean end instead of UnexpectedEof", []),
  "C18-14": ("/tmp/seeds9/J/2", "C18", "the same instance queried after the file was touched: last_modified() does an fstat and returns the CURRENT mtime", []),
  "C19-12": ("/tmp/seeds9/J/3", "C19", "the header map passed to get() also carries a Range line (bytes=0-) next to a gzip-preferring Accept-Encoding: substitution suppressed for range requests, plain file, encoding() None", []),
+})
+
+# tenth round: "find something that is NOT on the list: another part of the API or of a trait contract, the environment, a relation between two inputs"
+R2.update({
+ "C15-12": ("/tmp/seeds10/A/2", "C15", "an entity whose add_headers READS the map it is given (adds a header only if no Content-Range is there) or REPLACES an entry serve already set (Content-Length, Accept-Ranges): HEAD collects entity headers in a fresh map and appends them", ["C14"]),
+ "C15-13": ("/tmp/seeds10/A/3", "C15", "HEAD with an If-Range equal to the strong ETag and NO effective single range (no Range, an ignored Range, a multi-range that falls back to 200): HEAD early return tests the wrong flag and drops the entity headers of the 200", ["C14"]),
+ "C02-10": ("/tmp/seeds10/B/1", "C02", "an entity stream that yields MORE THAN 1024 consecutive ready chunks: 'cooperative yield' checked after the inner stream was polled, the chunk just taken is dropped (gap, then a bogus too-short error)", ["C01", "C07"]),
+ "C12-14": ("/tmp/seeds10/B/2", "C12", "entity near 2^64 and parts totalling between 2^64-199 and len-160: 413 path removed, exact length summed with saturating_add: Content-Length and exact hint saturated although more bytes follow", ["C01", "C06", "C13"]),
+ "C12-15": ("/tmp/seeds10/B/3", "C12", "an honest entity whose streams are NOT fused (they misbehave when polled after None: rewind, or panic like futures' unfold), drained to the end / multipart past its first part: 'eager over-length detection' polls the stream again after it returned None", ["C02", "C20"]),
+ "C03-15": ("/tmp/seeds10/C/1", "C03", "TWO or more SP/HTAB after a comma (bytes=0-1,  3-4): per-spec trim became strip_prefix (one character), header unparseable, 200", ["C13"]),
+ "C03-16": ("/tmp/seeds10/C/2", "C03", "entity length EXACTLY 2^64-1 and a multi-range request that goes multipart: capacity helper decimal_len() loops with a saturating limit and never ends for u64::MAX: serve() hangs", ["C13", "C06"]),
+ "C14-13": ("/tmp/seeds10/C/3", "C14", "second request echoing the served strong ETag in If-Match TOGETHER with the served Last-Modified in If-Modified-Since (no If-None-Match): 'has an etag condition' flag skips both date conditions, 200 instead of 304", ["C04"]),
+ "C04-14": ("/tmp/seeds10/D/1", "C04", "modification time in the last ~120 ns of a second (nanos 999 999 999) and a date condition equal to Last-Modified: whole seconds taken from as_secs_f64(), which rounds up to the next second", ["C14"]),
+ "C04-15": ("/tmp/seeds10/D/2", "C04", "If-Match / If-None-Match given as two or more header LINES with the matching tag on a line other than the last: every line's verdict is assigned instead of combined, the last line wins", ["C13"]),
+ "C05-10": ("/tmp/seeds10/D/3", "C05", "HEAD with a satisfiable Range and a FAILING If-Range: If-Range looked up for GET only, HEAD answers 206", ["C15"]),
+ "C08-9": ("/tmp/seeds10/G/2", "C08", "write!(w, \"..{}..\", x) (write_fmt with arguments) whose text straddles a chunk boundary under identity coding: override formats into a buffer and does ONE write whose count is discarded, tail dropped", ["C17"]),
+ "C17-12": ("/tmp/seeds10/G/3", "C17", "Cache-Control: no-transform in the REQUEST next to an Accept-Encoding that prefers gzip: streaming_body refuses gzip although should_gzip says true (a relation between two request headers)", ["C15"]),
+ "C10-17": ("/tmp/seeds10/H/1", "C10", "writer dropped while the consumer is parked, the woken consumer polls while the producer is still inside / just past wake() and BEFORE its Arc is released: reader infers 'writer gone' from Arc::strong_count == 1, parks again, nobody wakes it", ["C08"]),
+ "C09-12": ("/tmp/seeds10/H/2", "C09", "HISTORY of two streams in one process: stream A aborted (or its body dropped) with a flushed chunk still unread, chunk size >= 1024; then any gzip stream B with the same chunk size: process-wide pool recycles chunk buffers without clearing them", ["C08", "C11"]),
+ "C09-13": ("/tmp/seeds10/H/3", "C12", "writer dropped while two or more chunks are queued unread, consumer consults is_end_stream() after the next frame: cached seen_end flag set on writer_dropped alone, hyper-like consumer stops early (truncated member)", ["C12"]),
+ "C16-12": ("/tmp/seeds10/I/2", "C16", "a run of TWO or more spaces / tabs next to a ',' or ';' beside the deciding element (br,  gzip / gzip;  q=0.5): OWS helper strips at most one character per side", ["C17"]),
+ "C16-13": ("/tmp/seeds10/I/3", "C16", "identity's effective weight one of 0.251 / 0.253 / 0.502 / 0.506 / 0.511 and gzip exactly one thousandth lower: qvalue via f32 * 1000.0 truncated instead of rounded", ["C17"]),
+ "C18-15": ("/tmp/seeds10/J/1", "C18", "the file GROWS after construction and a range ending at the construction-time length is drained: read size only clamped when the range ends before the recorded length, stream reads past range.end, then UnexpectedEof", []),
+ "C19-13": ("/tmp/seeds10/J/2", "C19", "add_encoding_headers on a map that ALREADY holds a Vary entry (Vary: origin): insert became entry().or_insert(), Vary: accept-encoding not reported", []),
+ "C19-14": ("/tmp/seeds10/J/3", "C19", "get() awaited inside a tokio LocalSet on a multi-thread runtime: block_in_place fast path chosen by runtime flavour panics there", []),
+})
+
+R2.update({
+ "C13-12": ("/tmp/seeds10/E/1", "C13", "any multipart/byteranges body drained inside a tokio CURRENT-THREAD runtime: get_range for each part wrapped in block_in_place, which panics there", ["C06", "C01"]),
+ "C06-15": ("/tmp/seeds10/E/2", "C06", "sum + 80n < L but the exact multipart length is not (long entity headers, small entity): second check falls through to the whole entity on a builder that already carries 206, multipart Content-Type and Content-Length", ["C01", "C03"]),
+ "C07-9": ("/tmp/seeds10/F/1", "C07", "the stream delivers exactly the range, then ONE EMPTY chunk, then Err or one more non-empty chunk: an empty chunk at remaining == 0 is taken for the terminator, the later fault is never seen, clean end", ["C20", "C06"]),
+ "C20-11": ("/tmp/seeds10/F/2", "C20", "streaming body: >= 2 chunks queued, the consumer takes one, abort, the next poll returns Err, the poll AFTER that returns a stale chunk from the reader-local claimed queue", ["C11", "C12"]),
+ "C07-10": ("/tmp/seeds10/F/3", "C07", "200 / single 206 whose entity stream yields Err or one extra chunk as the very next item after the last announced byte: poll_frame returns None as soon as is_end_stream() is true, the entity stream is never polled past the last byte", ["C20"]),
 })
 
 def sh(cmd, **kw):
